@@ -250,15 +250,15 @@ def generate(rng, tier):
         cases.append(dict(kind="hist", mode="std", p1=["0/1"], p2=["2/1"], n=[2], nvdim=k, unit="T",
                           vals=flat([[F(0)] * k, [F(3)] + [F(0)] * (k - 1)]),
                           norm0=dict(kind="const", t="5/1", form="float"), v0=dict(kind="norm"), ops=[], bad=False))
-    for _ in range(330 if quick else 2600):
+    for _ in range(330 if quick else 6000):
         cases.append(gen_hist(rng, tier, "std"))
-    for _ in range(60 if quick else 400):
+    for _ in range(60 if quick else 1000):
         cases.append(gen_hist(rng, tier, "sub"))
-    for _ in range(60 if quick else 400):
+    for _ in range(60 if quick else 1000):
         cases.append(gen_hist(rng, tier, "thr"))
-    for _ in range(40 if quick else 300):
+    for _ in range(40 if quick else 700):
         cases.append(gen_hist(rng, tier, "std", bad=True))
-    for _ in range(160 if quick else 1600):
+    for _ in range(160 if quick else 4000):
         cases.append(gen_rel(rng, tier))
     for _ in range(3):
         cases.append(gen_intdtype(rng))
